@@ -21,7 +21,15 @@ def geom_replay(ctx, spec, f):
                 g["cbw"], g["cbh"], ins["in_uw"], ins["in_uh"], 0, 0, ins["in_uxdec"], ins["in_uydec"],
                 g["cbw"], g["cbh"], ins["in_vw"], ins["in_vh"], 0, 0, ins["in_vxdec"], ins["in_vydec"]]
         return native.replay_native(ctx, "geom", args)
-    return {"reproduced": None, "detail": "decode-instance counterexample: chroma window not recoverable by name; see failed check"}
+    # decode instance: the solver's frame is a window inside small buffers; natively the same situation (planes whose strides and
+    # paddings differ) is built with Plane::new and different chroma paddings, and decoded through the public API: an out-of-bounds
+    # get_unchecked aborts in the dev profile, a wrong sample shows against the 1x1 decodes
+    d = g.get("dec")
+    if not d:
+        return {"reproduced": None, "detail": "no decode geometry recorded"}
+    w = max(4, d["w"]) if d["ssx"] < 2 else 8
+    h = max(4, d["h"]) if d["ssy"] < 2 else 8
+    return native.replay_native(ctx, "layout", ["dec", d["T"], w, h, d["ssx"], d["ssy"], 8 if d["T"] == "u8" else 10, 0])
 
 
 def enc_replay_odd(ctx, spec, f):
@@ -62,7 +70,7 @@ def plan(tier, seed):
                        sym="luma %dx%d at a symbolic origin in a %dx%d buffer; both chroma windows (size, origin) symbolic in their buffers, U and V buffers of different strides; subsampling (%d,%d); %s%s" % (
                            w, h, w + 1, h + 1, sx, sy, T, ", symbolic samples" if T == "u16" else ", samples concrete (addresses do not depend on them)"),
                        covers=["accepted", "decoded"], unwind_rules=geom.decode_rules(w, h), replay=geom_replay,
-                       geom=dict(kind="decode")))
+                       geom=dict(kind="decode", dec=dict(T=T, w=w, h=h, ssx=sx, ssy=sy))))
     txt += geom.EPILOGUE
     p.modules.append(("src/yuv_rgb.rs", txt))
     # 3. encode side: no out-of-bounds write, also for dimensions the conversion rejects by panicking (F9 was found here)
